@@ -18,6 +18,7 @@ for spec in "$@"; do
     rm -f "$out"
   done
   git -C /repo checkout -- .
+  git -C /repo clean -fdq -- internal cmd docs http proto examples scripts 2>/dev/null # files a change ADDED
   echo "{\"id\":\"$id\",\"runs\":[${rows%,}]}" | python3 -m json.tool > "/verif/seeded/$id/detection.json"
 done
 git -C /repo status --short | head -3
